@@ -336,6 +336,18 @@ def serialize_to_xml(elements: Iterable[Any],
                 data = data[:end].replace(b'\'', b'"') + data[end:]
             chunks.append(data.decode('utf-8'))
 
+    # the XML declaration comes once and first, also when a comment or a processing
+    # instruction precedes the element that produced it
+    declaration = None
+    for k, chunk in enumerate(chunks):
+        if chunk.startswith('<?xml '):
+            end = chunk.index('?>') + 2
+            if declaration is None:
+                declaration = chunk[:end] + '\n'
+            chunks[k] = chunk[end:].lstrip('\n')
+    if declaration is not None:
+        chunks.insert(0, declaration)
+
     if not character_map:
         return (item_separator or '').join(chunks)
 
